@@ -24,4 +24,11 @@ ASSUME /\ Payload(S("del0")) = 13 /\ NumRecords(S("del0")) = 1
        /\ NumRecords(S("delhuge")) = 3
        /\ Bytes(Records(1, S("fit")) \o Records(2, S("fit")) \o Records(3, S("small"))) > BufSize
        /\ Bytes(Records(1, S("small")) \o Records(2, S("del0"))) < BufSize
+\* every payload length around one and two full records (the ranges of the boundary sweep, GEN_Wal_sweep.cfg), as a put
+\* whose value carries the length and as a delete whose key carries it, obeys the record format
+ASSUME \A L \in (32700..32800) \cup (65480..65560) :
+          /\ WellFormed([n |-> "sweep", op |-> "put", k |-> 8, v |-> L - EntryHdr - 8 - 4])
+          /\ WellFormed([n |-> "sweep", op |-> "del", k |-> L - EntryHdr, v |-> 0])
+          /\ Payload([n |-> "sweep", op |-> "put", k |-> 8, v |-> L - EntryHdr - 8 - 4]) = L
+          /\ Payload([n |-> "sweep", op |-> "del", k |-> L - EntryHdr, v |-> 0]) = L
 =============================================================================
